@@ -120,10 +120,17 @@ def run_plain(case, root, viol, cnt):
     import experiment.model.data as D
     pkg = case['pkg']
     path, vpaths = c15.materialise(pkg, root, None)
-    ep = S.ExperimentPackage.packageFromLocation(path, platform=pkg.get('platform'))
-    exp = D.Experiment.experimentFromPackage(ep, location=root, variable_files=list(vpaths) or None,
-                                            platform=pkg.get('platform'))
-    exp.validateExperiment(checkExecutables=True)
+    import experiment.model.errors as E
+    try:
+        ep = S.ExperimentPackage.packageFromLocation(path, platform=pkg.get('platform'))
+        exp = D.Experiment.experimentFromPackage(ep, location=root, variable_files=list(vpaths) or None,
+                                                platform=pkg.get('platform'))
+        exp.validateExperiment(checkExecutables=True)
+    except (E.ExperimentInvalidConfigurationError, E.FlowIRConfigurationErrors) as e:
+        # the loader rejects the generated package (e.g. the textual replica rewrite garbles references whose
+        # producer names contain one another - expansion is C03's business): nothing was stored, nothing to reload
+        cnt['probe.package_rejected_by_loader'] = cnt.get('probe.package_rejected_by_loader', 0) + 1
+        return
     inst = exp.instanceDirectory.location
     for oi, op in enumerate(case['ops']):
         if op['op'] == 'patch':
